@@ -114,6 +114,12 @@ type EnumSchema struct {
 var _ RootSchema = (*EnumSchema)(nil)
 
 func (s *EnumSchema) OptionByName(name string) *EnumOption {
+	// the name of an option may itself begin with the prefix
+	for _, opt := range s.Options {
+		if opt.name == name {
+			return opt
+		}
+	}
 	shortName := strings.TrimPrefix(name, s.NamePrefix)
 	for _, opt := range s.Options {
 		if opt.name == shortName {
